@@ -121,6 +121,7 @@ func TestDeterminism(t *testing.T) {
 		c := genCase(t)
 		st.Journal(map[string]any{"kind": "det", "case": c})
 		if err := runCase(c, reps, st); err != nil {
+			ev.G().PinLast()
 			t.Fatalf("C11 violated: %v", err)
 		}
 	})
@@ -138,6 +139,7 @@ func TestKnownAndRegressions(t *testing.T) {
 	}
 	for i, c := range cases {
 		if err := runCase(c, 200, st); err != nil {
+			ev.G().PinLast()
 			t.Fatalf("C11 violated (regression %d): %v", i, err)
 		}
 	}
@@ -164,6 +166,7 @@ func TestReplay(t *testing.T) {
 		t.Fatal(err)
 	}
 	if err := runCase(c, 512, nil); err != nil {
+		ev.G().PinLast()
 		t.Fatalf("C11 violated: %v", err)
 	}
 }
